@@ -14,6 +14,7 @@ import (
 	"fmt"
 	"hash/fnv"
 	"math/rand"
+	"os"
 	"reflect"
 	"runtime"
 	"sort"
@@ -710,6 +711,9 @@ func Recovered(v interface{}) interface{} {
 	buf := make([]byte, 1<<14)
 	buf = buf[:runtime.Stack(buf, false)]
 	fn := innermostRepoFrame(string(buf))
+	if os.Getenv("VERIF_DEBUG_RECOVER") != "" {
+		fmt.Fprintf(os.Stderr, "RECOVERED %v\n%s\n", v, clipStr(string(buf), 3000))
+	}
 	mu.Lock()
 	if len(recovered) < 20 {
 		msg := fmt.Sprintf("%v", v)
@@ -720,6 +724,13 @@ func Recovered(v interface{}) interface{} {
 	}
 	mu.Unlock()
 	return v
+}
+
+func clipStr(s string, n int) string {
+	if len(s) > n {
+		return s[:n]
+	}
+	return s
 }
 
 // innermostRepoFrame extracts the innermost luahelper-lsp function below the panic frame.
